@@ -78,6 +78,22 @@ TABLE = {
              "not an alarm. Release order within one resolve is mirrored from the code. TCB: TLC, the observing awaiter wrapper and event "
              "logger of corosched_replay.cpp, the driver's terminal-state extraction",
         design_ref="6/C05, 3.4"),
+    "C06": dict(
+        claimed=True,
+        text="SuspendPoint.tla models cocls::suspend_point<void>/<X> and the thread-local ready queue at the grain of one public operation. State "
+             "is the count/flag word, the inline or heap handle array with its capacity, the typed value, per-coroutine resume counts, live "
+             "new[] blocks, and normal versus coroutine mode with the queue and its flush. TLC checks Conservation, NoDoubleResume, NoLeak, "
+             "InlineNoAlloc, MovedFromIsEmpty, ValuePreserved, ResumeOrder and QueueFIFO. The untyped runs cover every history of any length "
+             "over at most 5 handles and 2 objects, or 4 handles and 3 objects; a further run covers bounded histories that mix typed and "
+             "untyped objects in three slots; configurations biased to the capacity boundaries reach 25 handles in quick and 52 in thorough, "
+             "crossing the 3->6->12->24->48->96 doublings, and thorough adds 20,000 random behaviours of up to 60 operations over 40 handles. "
+             "Every edge of every dumped state graph is replayed on the real classes from a real driver coroutine in both modes, with the "
+             "full representation compared after each operation.",
+        note="bounds: <=3 objects; <=5 handles exhaustive for any history length (6 in TLC-only runs); typed histories <=5 operations; boundary-biased "
+             "histories <=7 operations over <=52 handles; each handle handed in once (self-merge / own handle in the list excluded); TCB: TLC, g++ 12 "
+             "coroutine codegen, the replayer's probe/projection and its operator new[] counters; dummy coroutines do not re-enter the suspend "
+             "point or the queue",
+        design_ref="6/C06, 3.5"),
     "C07": dict(
         claimed=True,
         text="TLC checks spec/Mutex/Mutex.tla at the finest replayable grain (every atomic operation on the request stack AND every "
@@ -165,6 +181,23 @@ TABLE = {
              "<=4-6 commands; thread mode (start_thread) covered by SchedulerThread.tla: worker thread vs one client, <=3 sleeps, scripts of <=6 steps, lock grain + the worker's clock read, virtual time; thread-POOL mode (worker_coro<true>) not covered; TCB: TLC, tools/fastcover.py path cover, the replayer's "
              "projection/audit and its clock/pthread interposition, libstdc++-12 heap algorithms as modelled (a mismatch would diverge)",
         design_ref="6/C12, 3.8, 9.5"),
+    "C14": dict(
+        claimed=True,
+        text="TLC checks spec/Aggregator/Aggregator.tla - the aggregate's frame state (active-source counter, completion queue with its single "
+             "waiter slot, stored exception, GenCallback push, pop/yield/re-charge loop, fin, controller drain) over lazily enumerated scripted "
+             "sources (synchronous, awaiting operations completed later in every order, throwing, empty, cut off), consumer accesses of both "
+             "blocking and non-blocking kind, arguments, and destruction at every parked point - exhaustively for 0..3 sources (4-5 in narrow "
+             "configurations and by simulation): PerSourceOrder, MultisetUnion, EndsIffAllEnded (incl. no hang), ExceptionReportedOthersKept, "
+             "ArgGoesToLastSource, DestroyWaitsAndFrees, CountOK. Every edge of each state graph is replayed on the real generator_aggregator "
+             "over scripted generator<int>/generator<int,int> sources in several consumer implementations (plain code, hand-resumed "
+             "continuations nested inside the push, one consumer coroutine, own thread under the controlled scheduler with the completing "
+             "thread in two release orders) and all access styles, comparing after every public call the observations, the real queue content "
+             "and waiter slot, every source's state, RAII and parameter counters and received arguments, and at the end an exact allocation balance.",
+        note="bounds: quick 0-3 sources, scripts <=3 steps (<=2 for 3 sources), <=5 accesses, 26k paths x 2 modes; thorough 3 sources x <=3 steps, 145k "
+             "paths x 4 modes under ASan/UBSan, 4-5 sources narrow plus 30k simulated behaviours each; _count not directly observable; when several "
+             "sources throw only the last caught exception is reported (mirrored from the code, assumed to satisfy 'is reported'); thread "
+             "interleavings limited to blocked-consumer release orders; TCB: TLC, vsched, the replayer's probes and projection",
+        design_ref="6/C14, 3.10"),
     "C15": dict(
         claimed=True,
         text="TLC checks spec/Signal/Signal.tla (call grain: the four collector call forms, held/discarded/awaited suspend point on a normal thread "
